@@ -98,7 +98,11 @@ func (c01) Rule() string {
 		"case-mangled or unknown; plus targets handed to Router.Lookup directly (invalid escapes, relative paths, empty). Half of the documents are served by Context.APIHandler, half by " +
 		"Context.RoutesHandler; MatchedRouteFrom is read by a Builder middleware; every MatchedRoute answered by Router.Lookup is kept and compared again after the last request of the document. " +
 		"One generated case in eight (by case index) is a 'relnames' document: templates whose placeholder names are prefixes / suffixes / infixes of one another (id idx id2, item itemId, a ab abc, Id, d, tem ...) " +
-		"in both orders, with literal segments spelled like the names, one in three with such a placeholder inside a composite segment (requested with strict instantiations only); two enumerated documents of that kind. clean/join/unesc cases compare the three library models with path.Clean, path.Join, url.PathUnescape. " +
+		"in both orders, with literal segments spelled like the names, one in three with such a placeholder inside a composite segment (requested with strict instantiations only); two enumerated documents of that kind. " +
+		"One generated case in sixteen is a 'backtrack' document: <prefix>/{p1}/../{pd}/<t> (d = 1..3) next to <prefix>/l1/../lj/{qj}/<tj> for every j <= d under one verb, requested with <prefix>/l1/../lj/v../<t>, " +
+		"which follows the literal siblings first and fits the outer template only. Neighbours: after about 38% of the served requests one to three requests follow at once that differ from their predecessor in one dimension only (one byte of the target spelled the other way, %XX <-> byte, so that the " +
+		"percent-decoded path is the same and the encoded one is not; another verb; the letter case of the method; another value / cleaning detour; the query string; nothing), one in three followed by the first one again; " +
+		"MatchedRouteFrom of every served request is retained like the Router.Lookup answers; two enumerated documents of that kind. Placeholder values include escapes and raw bytes that are not well-formed UTF-8 (%E9, %FF%FE, %C3, %ED%A0%80, %C0%AF ...). clean/join/unesc cases compare the three library models with path.Clean, path.Join, url.PathUnescape. " +
 		"Non-trivial: a document with a parameterised template where at least one request ran a handler with parameters and at least one was answered 405 or 404."
 }
 
@@ -142,6 +146,20 @@ func (c01) Enumerate(tier string) []any {
 	out = append(out, mk("", "routes",
 		[]string{"get /c/{itemId}.{b}/y/{item}", "put /c/{ab}/{a}-{b}", "get /d/{idx}/{id}.json", "post /e/{a}.{ab}", "post /f/{ab}--{a}/{abc}", "delete /g/{id}/{d}_{idx}"},
 		[]string{"GET /c/42.x/y/shoe", "PUT /c/1/2-3", "GET /d/7/8.json", "POST /e/1.2", "POST /f/1--2/3", "DELETE /g/1/2_3", "POST /c/42.x/y/shoe", "GET /c//42.x/./y/shoe"}))
+	// neighbouring requests on one Context: the same percent-decoded path under two spellings, one after the other
+	for _, v := range []struct{ base, via string }{{"/api", "routes"}, {"", "api"}} {
+		in := mk(v.base, v.via,
+			[]string{"get /files/{name}", "get /files/{dir}/{name}", "put /files/{name}", "get /d/{a}/x", "get /d/x", "delete /k/{key}"},
+			[]string{"GET /files/a%2Fb", "GET /files/a/b", "GET /files/a%2Fb", "GET /files/a/b", "PUT /files/a%2Fb", "PUT /files/a/b", "PUT /files/a%2Fb",
+				"GET /d/%2E%2E/x", "GET /d/../x", "GET /d/z/x", "GET /d/z%2Fx", "GET /files/%61", "GET /files/a", "get /files/c%2Fd", "get /files/c/d",
+				"DELETE /k/caf%E9", "DELETE /k/caf%C3%A9", "DELETE /k/%FF%FE", "DELETE /k/%FE%FF", "DELETE /k/%FF", "GET /k/%FF", "DELETE /k/a%2Fb", "DELETE /k/a/b"})
+		in.Fam = "neighbours"
+		for i := range in.Reqs {
+			in.Reqs[i].Target = Bs(v.base) + in.Reqs[i].Target
+			in.Reqs[i].Origin = "neighbours"
+		}
+		out = append(out, in)
+	}
 	return out
 }
 
@@ -161,7 +179,10 @@ var c01RelSeps = []string{".", "-", "--", "_", "::", "@", ".v"}
 var c01CompSegs = []string{"{a}.{b}", "{name}--{ver}", "{a}.json", "{x}_{y}_{z}", "{a}-{b}", "{id}.tar.gz", "{a}::{b}", "{p1}@{id}"}
 var c01Values = []string{"x", "abc", "b", "a", "ab", "items", "1", "%2F", "a%2Fb", "%2f", "%25", "%2525", "a%25", ":", ":id", "a:b", "*", "*w", "a*", "#", "%23", "a%23b", ";", "a;b=c", "=", "a=b", "=:",
 	".", "..", "...", "%2E%2E", "%2e", ".a", "\xc3\xa9", "%C3%A9", "%20", "a%20b", "a+b", "~", "$", ",", "%00", "%7Bx%7D", "{x}", "{id}", "x.y", "x.y.z", ".y", "x.", "abc--1", "abc-1", "--", "a.json", ".json", "a.jsonl",
-												"x_y_z", "x_y", "v.tar.gz", "a::b", "a@b", "%3A", "%2A", "%", "%zz"}
+	"x_y_z", "x_y", "v.tar.gz", "a::b", "a@b", "%3A", "%2A", "%", "%zz",
+	// escapes (and raw bytes) that do not spell well-formed UTF-8: Latin-1, binary keys, a truncated sequence, a surrogate, an
+												// overlong form, a lone continuation byte, and pairs that differ only in the invalid bytes. A value is a byte string.
+												"caf%E9", "%E9", "%FF%FE", "%FE%FF", "%FF", "%C3", "a%C3", "%ED%A0%80", "%C0%AF", "%80", "%BF%80", "a%FFb%FEc", "a%FEb%FFc", "%F0%9F%98", "%E9t%E9", "\xe9", "k\xff", "%EF%BF%BD", "%C3%A9%FF"}
 var c01BadCompSegs = []string{"{a}x{b", "{a}x}b{c}", "{a}}{b}", "{a}}", "{x}-{y", "{a}.}{b}"} // unbalanced braces after a placeholder
 var c01PlaceholderRe = regexp.MustCompile(`\{([^{}/]+)\}`)
 
@@ -300,7 +321,7 @@ func c01Instantiate(r *rand.Rand, full string) string {
 			} else {
 				// composite: mostly fill the placeholders one by one
 				segs[i] = c01PlaceholderRe.ReplaceAllStringFunc(s, func(string) string {
-					return c01Pick(r, []string{"x", "abc", "1", "a%2Fb", "%25", "v", ":", "x.y", "", "a-b"})
+					return c01Pick(r, []string{"x", "abc", "1", "a%2Fb", "%25", "v", ":", "x.y", "", "a-b", "%E9", "%FF%FE"})
 				})
 			}
 		}
@@ -312,7 +333,7 @@ func c01Instantiate(r *rand.Rand, full string) string {
 // separator bytes (letters and digits, some percent-encoded)
 func c01InstantiateStrict(r *rand.Rand, full string) string {
 	return c01PlaceholderRe.ReplaceAllStringFunc(full, func(string) string {
-		return c01Pick(r, []string{"x", "abc", "1", "42", "shoe", "v", "a%2Fb", "%25", "%C3%A9", "a%20b", "id", "item", "ab", "d"})
+		return c01Pick(r, []string{"x", "abc", "1", "42", "shoe", "v", "a%2Fb", "%25", "%C3%A9", "a%20b", "id", "item", "ab", "d", "caf%E9", "%FF%FE", "k%C3", "%ED%A0%80"})
 	})
 }
 
@@ -360,6 +381,102 @@ func c01MutatePath(r *rand.Rand, p string) (string, string) {
 	default:
 		return p, "plain"
 	}
+}
+
+func c01IsHex(c byte) bool {
+	return c >= '0' && c <= '9' || c >= 'a' && c <= 'f' || c >= 'A' && c <= 'F'
+}
+
+// the same target with one byte spelled the other way: a %XX triple replaced by the byte it stands for, or a
+// byte replaced by its triple. The percent-DECODED path stays what it was, the still encoded path (which is
+// what the router reads) does not: /files/a%2Fb and /files/a/b, /x/%2E%2E and /x/.., /x/%61 and /x/a.
+func c01Reencode(r *rand.Rand, t string) (string, bool) {
+	p, qs := t, ""
+	if i := strings.IndexByte(t, '?'); i >= 0 {
+		p, qs = t[:i], t[i:]
+	}
+	var pref, all []int // positions: of a decodable triple, or of a plain byte
+	for i := 1; i < len(p); i++ {
+		if p[i] == '%' {
+			if i+2 < len(p) && c01IsHex(p[i+1]) && c01IsHex(p[i+2]) {
+				var b byte
+				fmt.Sscanf(p[i+1:i+3], "%02x", &b)
+				if b > 0x20 && b < 0x7f && b != '?' && b != '#' && b != '%' {
+					all = append(all, i)
+					pref = append(pref, i)
+				}
+				i += 2
+			}
+			continue
+		}
+		if p[i] > 0x20 && p[i] < 0x7f {
+			all = append(all, i)
+			if p[i] == '/' || p[i] == '.' {
+				pref = append(pref, i)
+			}
+		}
+	}
+	if len(all) == 0 {
+		return t, false
+	}
+	from := all
+	if len(pref) > 0 && r.Intn(10) < 7 {
+		from = pref
+	}
+	i := from[r.Intn(len(from))]
+	if p[i] == '%' {
+		var b byte
+		fmt.Sscanf(p[i+1:i+3], "%02x", &b)
+		return p[:i] + string([]byte{b}) + p[i+3:] + qs, true
+	}
+	f := "%%%02X"
+	if r.Intn(4) == 0 {
+		f = "%%%02x"
+	}
+	return p[:i] + fmt.Sprintf(f, p[i]) + p[i+1:] + qs, true
+}
+
+// a request that follows prev immediately and differs from it in ONE dimension, the others kept as they were
+// written: the spelling of a byte (same decoded path), the method, the letter case of the method, the value of
+// a placeholder / a cleaning detour, the query string, or nothing at all. Whatever the middleware remembers of
+// a request (a route, a parameter list, an Allow set) must not answer its neighbour.
+func c01Neighbour(r *rand.Rand, prev c01Req, inst func() string) c01Req {
+	q := c01Req{M: prev.M, Target: prev.Target}
+	switch k := r.Intn(100); {
+	case k < 50:
+		if t, ok := c01Reencode(r, string(prev.Target)); ok {
+			q.Target, q.Origin = Bs(t), "next:reencoded"
+			if r.Intn(4) == 0 {
+				if t2, ok := c01Reencode(r, t); ok {
+					q.Target = Bs(t2)
+				}
+			}
+			return q
+		}
+		fallthrough
+	case k < 62:
+		q.M, q.Origin = Bs(strings.ToUpper(c01Pick(r, c01Verbs))), "next:method"
+	case k < 68:
+		q.M, q.Origin = Bs(c01Mangle(r, string(prev.M))), "next:method-case,case"
+	case k < 82:
+		// another instantiation of the same operation, or the same path by another detour
+		if r.Intn(2) == 0 {
+			q.Target, q.Origin = Bs(inst()), "next:value"
+		} else {
+			t, how := c01MutatePath(r, strings.SplitN(string(prev.Target), "?", 2)[0])
+			q.Target, q.Origin = Bs(t), "next:"+how
+		}
+	case k < 90:
+		if strings.Contains(string(prev.Target), "?") {
+			q.Target = Bs(strings.SplitN(string(prev.Target), "?", 2)[0])
+		} else {
+			q.Target = prev.Target + Bs(c01Pick(r, []string{"?x=1", "?", "?a=%2F&b=/", "?/x"}))
+		}
+		q.Origin = "next:query"
+	default:
+		q.Origin = "next:same"
+	}
+	return q
 }
 
 func c01GenSpec(r *rand.Rand) c01In {
@@ -442,6 +559,99 @@ func c01GenRelTemplates(r *rand.Rand, composite bool) []string {
 		}
 	}
 	return out
+}
+
+// nested backtracking: an outer template with d placeholders in a row, <prefix>/{p1}/../{pd}/<t>, and for every
+// j <= d a template that spells the first j of them as literals and goes on with a placeholder of its own,
+// <prefix>/l1/../lj/{qj}/<tj>, all under one method. The request <prefix>/l1/../lj/v../<t> follows the literal
+// siblings first, fits none of them and instantiates the outer template only: the router has to come back past j
+// placeholder nodes that it met on the way down.
+func c01GenSpecBacktrack(r *rand.Rand) c01In {
+	d := 1 + r.Intn(3)
+	var prefix []string
+	for k := r.Intn(3); k > 0; k-- {
+		prefix = append(prefix, c01Pick(r, c01Lits))
+	}
+	names := map[string]bool{}
+	name := func() string {
+		for {
+			nm := c01Pick(r, c01Names)
+			if !c01NameClash(names, nm) {
+				names[nm] = true
+				return nm
+			}
+		}
+	}
+	lits := make([]string, d)
+	for i := range lits {
+		lits[i] = c01Pick(r, c01Lits)
+	}
+	tail := c01Pick(r, c01Lits)
+	outer := append([]string{}, prefix...)
+	for i := 0; i < d; i++ {
+		outer = append(outer, "{"+name()+"}")
+	}
+	outer = append(outer, tail)
+	tpls := []string{"/" + strings.Join(outer, "/")}
+	for j := 1; j <= d; j++ {
+		tj := c01Pick(r, c01Lits)
+		for tj == tail {
+			tj = c01Pick(r, c01Lits)
+		}
+		names = map[string]bool{}
+		segs := append(append([]string{}, prefix...), lits[:j]...)
+		segs = append(segs, "{"+name()+"}", tj)
+		if r.Intn(3) == 0 {
+			segs = append(segs, c01Pick(r, c01Lits))
+		}
+		tpls = append(tpls, "/"+strings.Join(segs, "/"))
+	}
+	if r.Intn(2) == 0 {
+		// unrelated templates around them
+		seen := map[string]bool{}
+		for _, t := range tpls {
+			seen[c01Shape(t)] = true
+		}
+		for _, t := range c01GenTemplates(r, false) {
+			if len(tpls) < 8 && !seen[c01Shape(t)] {
+				seen[c01Shape(t)] = true
+				tpls = append(tpls, t)
+			}
+		}
+	}
+	in := c01SpecFrom(r, tpls, false)
+	in.Fam = "backtrack"
+	// every template of the family under one verb
+	verb := c01Pick(r, c01Verbs)
+	have := map[string]bool{}
+	for _, op := range in.Ops {
+		if string(op.M) == verb {
+			have[c01Shape(string(op.T))] = true
+		}
+	}
+	for _, t := range tpls[:d+1] {
+		if !have[c01Shape(t)] {
+			have[c01Shape(t)] = true
+			in.Ops = append(in.Ops, c01Op{M: Bs(verb), T: Bs(t)})
+		}
+	}
+	// the requests that need the way back, at random places among the others
+	vals := []string{"x", "abc", "1", "a%2Fb", "%25", "v", "items", "%FF"}
+	for j := 1; j <= d; j++ {
+		segs := append(append([]string{}, prefix...), lits[:j]...)
+		for i := j; i < d; i++ {
+			if r.Intn(2) == 0 {
+				segs = append(segs, lits[i]) // spelled like the literal sibling one level further down
+			} else {
+				segs = append(segs, c01Pick(r, vals))
+			}
+		}
+		segs = append(segs, tail)
+		q := c01Req{M: Bs(strings.ToUpper(verb)), Target: Bs(path.Join("/", string(in.Base), strings.Join(segs, "/"))), Origin: "backtrack"}
+		at := r.Intn(len(in.Reqs) + 1)
+		in.Reqs = append(in.Reqs[:at], append([]c01Req{q}, in.Reqs[at:]...)...)
+	}
+	return in
 }
 
 func c01GenSpecRel(r *rand.Rand) c01In {
@@ -535,6 +745,25 @@ func c01SpecFrom(r *rand.Rand, tpls []string, strict bool) c01In {
 			q.Origin += ",unknown-method"
 		}
 		in.Reqs = append(in.Reqs, q)
+		// neighbours: one to three requests that follow at once and differ in one dimension only
+		for !q.Direct && len(q.Target) > 1 && i+1 < nreq && r.Intn(100) < 38 {
+			var nb c01Req
+			for {
+				nb = c01Neighbour(r, q, func() string { return inst(full) })
+				if strict && (strings.Contains(nb.Origin, "dropseg") || strings.Contains(nb.Origin, "extraseg") || nb.Origin == "next:reencoded") {
+					continue // see above: nothing that changes the segment count or the separators of a composite document
+				}
+				break
+			}
+			in.Reqs = append(in.Reqs, nb)
+			i++
+			if r.Intn(3) == 0 {
+				// ... and back again: A, A', A
+				in.Reqs = append(in.Reqs, c01Req{M: q.M, Target: q.Target, Origin: "next:back"})
+				i++
+			}
+			q = nb
+		}
 	}
 	return in
 }
@@ -552,6 +781,9 @@ func (c01) Gen(r *rand.Rand, tier string, i int) any {
 	if i%8 == 3 {
 		// scheduled by case index so that every seed runs the family
 		return c01GenSpecRel(r)
+	}
+	if i%16 == 5 {
+		return c01GenSpecBacktrack(r)
 	}
 	switch k := r.Intn(100); {
 	case k < 45:
@@ -765,6 +997,10 @@ func c01RunSpec(in c01In, obs *c01Obs) {
 				}
 				if seen == nil && ran >= 0 {
 					ro.LPanic = "handler ran without a matched route"
+				}
+				if seen != nil && ro.Found && ro.LPanic == "" {
+					// the route the middleware chain handed to this request is retained as well
+					kept = append(kept, c01Kept{len(obs.Reqs), seen})
 				}
 			}
 		}
